@@ -17,6 +17,22 @@ from framework import Prop
 
 FIXED_MODEL = os.environ.get("C09_MODEL", "fixed") != "upstream"
 
+
+def _global_fixed():
+    """fix FC12e (guards of ApplyLayoutCastSubviewGlobal) expected in the tree under test? Single switch: the status of
+    DC09a in known_findings.d/C09.json ("fixed" -> yes); C09_FC12E=0/1 overrides."""
+    if os.environ.get("C09_FC12E") in ("0", "1"):
+        return os.environ["C09_FC12E"] == "1"
+    import json
+    path = os.path.join(os.path.dirname(os.path.dirname(os.path.dirname(os.path.abspath(__file__)))), "known_findings.d", "C09.json")
+    try:
+        return any(f["id"] == "DC09a" and f.get("status") == "fixed" for f in json.load(open(path))["findings"])
+    except OSError:
+        return False
+
+
+GLOBAL_FIXED = _global_fixed()
+
 # accelerator templates: (accelerator attribute, kernel in the body) -> number of spatial dims of the template
 TEMPLATES = {
     "alu": ("snax_alu", "add", 1),          # SNAXAluAccelerator.get_template: 1-d template
@@ -519,11 +535,18 @@ def gen_global(rng, divides=None):
         if not divides and rng.random() < 0.6:
             n += rng.randrange(1, t) if t > 1 else 0
         gshape.append(n)
-        offs.append(t * rng.randrange(0, max(1, n // t)) if rng.random() < 0.5 else 0)
+        r = rng.random()
+        if r < 0.45:
+            offs.append(0)
+        elif r < 0.85 or n == t:
+            offs.append(t * rng.randrange(0, max(1, n // t)))       # at a tile boundary
+        else:
+            offs.append(rng.randrange(0, n - t + 1))                  # anywhere (in bounds): mostly not tile-aligned
     while int(np.prod(gshape)) > MAX_BOX:
         j = max(range(len(gshape)), key=lambda j: gshape[j] // tile[j])
         gshape[j] = max(tile[j], gshape[j] // 2 // tile[j] * tile[j])
         offs[j] = 0
+    offs = [min(o, n - t) for o, n, t in zip(offs, gshape, tile)]
     c = dict(c, kind="global", gshape=gshape, offs=offs, uses=2 if rng.random() < 0.1 else 1,
              glayout=rng.random() < 0.08)
     c["operands"] = [dict(o, layout=None) for o in c["operands"]]
@@ -840,7 +863,8 @@ class C09(Prop):
             return [r for op_cases, _ in runs_of(case) for oc in op_cases for r in self.op_requests(oc)]
         if k == "global":
             r = self.op_requests(dict(case, kind="schedule"))[0]
-            return [{"fn": "c09.opglobal", "args": dict(r["args"], gshape=case["gshape"])}]
+            return [{"fn": "c09.opglobal", "args": dict(r["args"], gshape=case["gshape"], offs=list(case["offs"]),
+                                                        gfixed=GLOBAL_FIXED)}]
         if k == "canon":
             return [{"fn": "c09.canon", "args": {"strides": case["strides"]}}]
         if k == "addr":
@@ -1093,7 +1117,10 @@ class C09(Prop):
         if k == "global":
             tile = case["operands"][0]["shape"]
             if impl_out.get("global") is None:
-                return "global:untouched"
+                why = ("second-user" if case.get("uses", 1) > 1 else "has-layout" if case.get("glayout") else
+                       "tile-does-not-divide" if any(n % t for n, t in zip(case["gshape"], tile)) else
+                       "offset-unaligned" if any(o % t for o, t in zip(case["offs"], tile)) else "?")
+                return "global:untouched:" + why
             return "global:" + ("tile-divides" if all(n % t == 0 for n, t in zip(case["gshape"], tile)) else "tile-does-not-divide")
         return k
 
